@@ -131,7 +131,13 @@ class sx_int_t(metaclass=_IntMeta):
         return sx_int(*a, **k)
 
 
+FLOAT_HOOK = []     # harnesses may append a callable that sees every symbolic integer converted by float()
+
+
 def sx_float(v=0.0):
+    if isinstance(v, (SInt, SNum)):
+        for h in FLOAT_HOOK:
+            h(v)
     if isinstance(v, SNum):
         return v if v.is_real else mknum(z3.ToReal(v.t))
     if isinstance(v, SInt):
